@@ -45,7 +45,7 @@ func (c02) Run(t *tape.Tape, tier Tier) *Result {
 	spec := g.Tree()
 	if t.Draw(1000) == 7 {
 		// rarely: a chain of many layers (limits that depend on depth)
-		spec = g.DeepChain(40 + t.Draw(40))
+		spec = g.DeepChain(34 + t.Draw(8))
 	}
 	b := &gen.Builder{}
 	sim := world.NewSim(t)
